@@ -9,6 +9,12 @@ namespace Xandikos.Py
 
 abbrev Dict (ν : Type) := List (String × ν)
 
+/-- `s.add(x)` on a set kept as a list without duplicates -/
+def setAdd (s : List String) (x : String) : List String := if s.contains x then s else s ++ [x]
+
+/-- `set(a) | b` -/
+def setUnion (a b : List String) : List String := a ++ b.filter fun x => !a.contains x
+
 namespace Dict
 variable {ν : Type}
 
